@@ -255,6 +255,21 @@ Qed.
 
 End Convert.
 
+(* ---------------------------------------------------------------- Repr::from_str_native (C08) *)
+
+(** whatever text is accepted, the representation returned is normalised *)
+Theorem parse_nz B s0 s e nd : 2 <= B -> parse_asis B s0 = Ok (s, e, nd) -> nz B (s, e).
+Proof.
+  intros HB. unfold parse_asis. destruct (strip_float_sign s0) as [sg src].
+  match goal with |- rbind ?X _ = _ -> _ => destruct X as [[[scale pmarker] src']| | |] end; cbn [rbind]; try discriminate.
+  match goal with |- rbind ?X _ = _ -> _ => destruct X as [[[signif exponent] nd']| | |] end; cbn [rbind]; try discriminate.
+  pose proof (new_nz B HB (sg * signif) 0) as H. destruct (Model.normalize B (sg * signif) 0) as [s' k].
+  destruct (Z.eqb_spec s' 0) as [Z0|NZ].
+  - intros E. inversion E. subst. apply zero_nz.
+  - destruct (in_isize (exponent + k)); [|discriminate]. intros E. inversion E. subst.
+    destruct H as [[Z0 _]|[_ M]]; [cbn in Z0; contradiction|]. right. cbn [fr fst snd fsig fexp] in *. split; assumption.
+Qed.
+
 (* ---------------------------------------------------------------- == is sound on everything the producers return *)
 
 (** the representations the modelled producers can return, in base B *)
@@ -263,6 +278,9 @@ Inductive produced (B : Z) : frepr -> Prop :=
 | PInf : produced B (FR 0 1)                               (* Repr::infinity *)
 | PNegInf : produced B (FR 0 (-1))                         (* Repr::neg_infinity *)
 | PNeg x : produced B x -> produced B (FR (- fsig x) (fexp x))   (* Neg: the significand changes sign *)
+| PParse s0 s e nd : parse_asis B s0 = Ok (s, e, nd) -> produced B (FR s e)       (* FromStr *)
+| PRepRound p m x : produced B x -> f_is_inf x = false ->                          (* Context::repr_round: convert_int, ... *)
+    produced B (fr (approx_pair (norm_approx B (repr_round B p m (fsig x) (fexp x)))))
 | PConv B0 p m s e s' e' f : convert_base_asis B0 B p m s e = CDone s' e' f -> produced B (FR s' e')
 | PWithPrecision p0 p m x : produced B x -> f_is_inf x = false ->
     produced B (fr (fst (TextIoModel.with_precision_asis B p0 p m (fsig x) (fexp x))))
@@ -307,6 +325,8 @@ Proof.
     split; [exact W|]. destruct N as [I|N]; [left; exact I | right]. unfold normalized in *. cbn [fsig fexp] in *.
     destruct N as [[-> ->]|[Hs Hm]]; [left; split; reflexivity | right]. split; [lia|].
     intros E. apply Hm. apply Z.mod_divide in E; [|lia]. apply Z.mod_divide; [lia|]. destruct E as [k E]. exists (- k). lia.
+  - apply (Q (s, e)). eapply parse_nz; eassumption.
+  - destruct IHP as [_ N]. apply Q. apply norm_approx_round_nz; [exact HB | apply fin_nz; assumption].
   - apply (Q (s', e')). eapply convert_base_nz; eassumption.
   - destruct IHP as [_ N]. apply Q. apply with_precision_c08_nz; [exact HB | apply fin_nz; assumption].
   - destruct IHP as [_ N]. apply Q. apply with_precision_c10_nz; [exact HB | apply fin_nz; assumption].
